@@ -1,3 +1,256 @@
 import Driver.Common
-/-! Model driver for C02 — not built yet. -/
-def main (_args : List String) : IO Unit := pure ()
+import Logrange.Model.RangedIter
+/-! Model driver for C02 (time-range queries). Requests (one per line):
+
+block tree / abstract points (unit)
+* `tree.reset` · `tree.add t0 i0 t1 i1` → `ok|adderr` (also applied to the `Points` list)
+* `tree.points` → `c|NC ts:idx,…` (traversal; `NC` = intervals not contiguous) · `pts.points` → the `Points` list
+* `tree.probe t` → `greq=<idx|all> less=<idx|all> pgreq=<idx|all> pless=<idx|all> level=<n>`
+
+selector (unit)
+* `sel.adv min max count pos` · `sel.red min max count pos` → `<pos> <0|1>`
+* `sel.upd rmin rmax hmin hmax <greq-answer> <less-answer>` (answers `ok:N|nf|oor|cor`) → `<minPos> <maxPos> <rebuild requests> <asked grEq ts|-> <asked less ts|->`
+
+chunk index (unit)
+* `ci.reset` · `ci.write first last cid min max` → `ok|corrupted` · `ci.greq cid t` · `ci.less cid t` · `ci.info cid` ·
+  `ci.points cid` · `ci.upd cid rmin rmax` → `<minPos> <maxPos> <rebuild requests>`
+
+ranged pipeline (system)
+* `rw.reset maxChunkSize` · `rw.write ts:msgLen:fldLen[*N],…` → OnWrite calls, start/end, `CORRUPTED c,…`
+* `rw.rebuild <dense chunk id|all>` · `rw.autorebuild` (rebuild the chunks the last write reported corrupted) · `rw.hull` → `cid:cnt:min:max …` · `rw.points cid`
+* `r.windows lo hi` → `cid:minPos:maxPos:count …` of a fresh selector (bounds `none` = absent)
+* `r.scan lo hi page` → `got=<runs> spec=<runs> cls=<2,3,41,4,24> fix2=<0|1|-> fix3=<0|1|-> fix23=<0|1|-> fix41=<0|1|->`
+* `r.new lo hi` · `r.get` · `r.next` · `r.setpos cid idx` · `r.bkwd 0|1` (JIterator step by step)
+-/
+open Logrange Driver
+
+structure DS where
+  store : IdxTree.Store := #[]
+  root : Option Nat := none
+  pts : List Points.Pt := []
+  cidx : CIndex.St := {}
+  wj : WriteLoop.J := { maxSize := 100 }
+  rcidx : CIndex.St := {}
+  rcidx2 : CIndex.St := {}
+  rcidx3 : CIndex.St := {}       -- variant: rebuild with a proper segment maximum (repair of #41)
+  rebuiltNeg : Bool := false     -- a chunk holding a negative timestamp was rebuilt
+  allTs : Array Int := #[]
+  batches : List (List Int) := []
+  layout : Option (Selector.Journal × Array (Array Int) × Array Nat) := none
+  rg : Option RangedIter.St := none
+  pendingReb : List Nat := []
+
+def ptStr (ts : Int) (idx : Nat) : String := toString ts ++ ":" ++ toString idx
+
+def treePointsStr (d : DS) : String :=
+  match d.root with
+  | none => "empty"
+  | some r =>
+    let ivs : List IdxTree.Interval := IdxTree.traversal 64 d.store r
+    let pts : List IdxTree.Rec := match ivs with
+      | [] => []
+      | i0 :: _ => i0.p0 :: ivs.map (fun (i : IdxTree.Interval) => i.p1)
+    let contiguous := (ivs.zip (ivs.drop 1)).all (fun ((a : IdxTree.Interval), (b : IdxTree.Interval)) => a.p1 == b.p0)
+    (if contiguous then "c " else "NC ") ++ ",".intercalate (pts.map (fun (p : IdxTree.Rec) => ptStr p.ts p.idx))
+
+def parseAns (s : String) : CIndex.Ans :=
+  match s.splitOn ":" with
+  | ["ok", n] => .ok (n.toNat?.getD 0)
+  | ["nf"] => .notFound
+  | ["oor"] => .outOfRange
+  | _ => .corrupted
+
+def parseRecs (spec : String) : List WriteLoop.Rec :=
+  (if spec == "-" then [] else spec.splitOn ",").flatMap (fun e =>
+    let (body, rep) := match e.splitOn "*" with
+      | [b, n] => (b, n.toNat?.getD 1)
+      | _ => (e, 1)
+    match body.splitOn ":" with
+    | [a, b, c] => (match a.toInt?, b.toNat?, c.toNat? with
+        | some ts, some ml, some fl => List.replicate rep (⟨ts, WriteLoop.recLen ml fl⟩ : WriteLoop.Rec)
+        | _, _, _ => [])
+    | _ => [])
+
+/-- runs of consecutive numbers: `3-7,9,12-13`; `-` for the empty sequence -/
+def runs (xs : Array Nat) : String :=
+  if xs.isEmpty then "-" else
+  let fin (a b : Nat) : String := if a == b then toString a else toString a ++ "-" ++ toString b
+  let (parts, a, b) := (xs.extract 1 xs.size).foldl (fun (acc : Array String × Nat × Nat) x =>
+      let (parts, a, b) := acc
+      if x == b + 1 then (parts, a, x) else (parts.push (fin a b), x, x)) (#[], xs[0]!, xs[0]!)
+  ",".intercalate (parts.push (fin a b)).toList
+
+def mkLayout (d : DS) : Selector.Journal × Array (Array Int) × Array Nat :=
+  let (cks, tss, offs, _) := d.wj.chunks.foldl (fun (acc : Selector.Journal × Array (Array Int) × Array Nat × Nat) c =>
+      let (cks, tss, offs, o) := acc
+      (cks.push ⟨c.id * 10, c.cnt⟩, tss.push (d.allTs.extract o (o + c.cnt)), offs.push o, o + c.cnt)) (#[], #[], #[], 0)
+  (cks, tss, offs)
+
+def withLayout (d : DS) : DS × (Selector.Journal × Array (Array Int) × Array Nat) :=
+  match d.layout with
+  | some l => (d, l)
+  | none => let l := mkLayout d; ({ d with layout := some l }, l)
+
+def optBound (s : String) : Option (Option Int) := if s == "none" then some none else s.toInt?.map some
+
+def seqOf (lay : Selector.Journal × Array (Array Int) × Array Nat) (p : Nat × Nat) : Nat :=
+  let i := (lay.1.findIdx? (·.id == p.1)).getD 0
+  lay.2.2[i]! + p.2
+
+def doScan (lay : Selector.Journal × Array (Array Int) × Array Nat) (cidx : CIndex.St) (mn mx : Int) (page total : Nat) : Array Nat :=
+  let st : RangedIter.St := { cks := lay.1, cidx := cidx, tss := lay.2.1, rmin := mn, rmax := mx }
+  let (_, got) := RangedIter.scan st page (total + 2)
+  got.map (seqOf lay)
+
+def b01 (b : Bool) : String := if b then "1" else "0"
+
+def refresh (d : DS) (st : RangedIter.St) : DS × RangedIter.St :=
+  let (d, lay) := withLayout d
+  (d, { st with cks := lay.1, tss := lay.2.1, cidx := d.rcidx })
+
+def step (d : DS) (toks : List String) : DS × String :=
+  match toks with
+  | ["tree.reset"] => ({ d with store := #[], root := none, pts := [] }, "ok")
+  | ["tree.add", a, b, c, e] =>
+    (match a.toInt?, b.toNat?, c.toInt?, e.toNat? with
+     | some t0, some i0, some t1, some i1 =>
+       let (s', r') := IdxTree.add 8 d.store d.root ⟨⟨t0, i0⟩, ⟨t1, i1⟩⟩
+       let pts' := Points.add d.pts ⟨⟨t0, i0⟩, ⟨t1, i1⟩⟩
+       (match r' with
+        | some r => ({ d with store := s', root := some r, pts := pts' }, "ok")
+        | none => ({ d with store := s', pts := pts' }, "adderr"))
+     | _, _, _, _ => (d, "bad-op"))
+  | ["tree.points"] => (d, treePointsStr d)
+  | ["pts.points"] => (d, if d.pts.isEmpty then "empty" else ",".intercalate (d.pts.map (fun p => ptStr p.ts p.idx)))
+  | ["tree.probe", t] =>
+    (match t.toInt?, d.root with
+     | some ts, some r =>
+       let sh (x : Option IdxTree.Rec) : String := match x with | none => "all" | some (y : IdxTree.Rec) => toString y.idx
+       let pg := if Points.cntLE d.pts ts == 0 then "all" else toString (Points.grEqPos d.pts ts)
+       let pl := match Points.lessPos d.pts ts with | none => "all" | some i => toString i
+       (d, s!"greq={sh (IdxTree.grEq 64 d.store r ts)} less={sh (IdxTree.less 64 d.store r ts)} pgreq={pg} pless={pl} level={(d.store[r]!).level}")
+     | _, _ => (d, "bad-op"))
+  | ["sel.adv", a, b, c, p] =>
+    (match a.toNat?, b.toNat?, c.toNat?, p.toNat? with
+     | some mn, some mx, some cnt, some pos => let (np, ok) := Selector.checkAdvance ⟨mn, mx, cnt⟩ pos; (d, s!"{np} {b01 ok}")
+     | _, _, _, _ => (d, "bad-op"))
+  | ["sel.red", a, b, c, p] =>
+    (match a.toNat?, b.toNat?, c.toNat?, p.toNat? with
+     | some mn, some mx, some cnt, some pos => let (np, ok) := Selector.checkReduce ⟨mn, mx, cnt⟩ pos; (d, s!"{np} {b01 ok}")
+     | _, _, _, _ => (d, "bad-op"))
+  | ["sel.upd", a, b, c, e, g, l] =>
+    (match a.toInt?, b.toInt?, c.toInt?, e.toInt? with
+     | some rmin, some rmax, some hmin, some hmax =>
+       let (st, k) := Selector.updatePossWith rmin rmax hmin hmax (fun _ => parseAns g) (fun _ => parseAns l) {}
+       let (ag, al) := Selector.asks rmin rmax hmin hmax
+       let sh (x : Option Int) : String := match x with | none => "-" | some t => toString t
+       (d, s!"{st.minPos} {st.maxPos} {k} {sh ag} {sh al}")
+     | _, _, _, _ => (d, "bad-op"))
+  | ["ci.reset"] => ({ d with cidx := {} }, "ok")
+  | ["ci.write", a, b, c, e, f] =>
+    (match a.toNat?, b.toNat?, c.toNat?, e.toInt?, f.toInt? with
+     | some fi, some la, some cid, some mn, some mx =>
+       let (s', r) := CIndex.onWrite d.cidx fi la cid mn mx
+       ({ d with cidx := s' }, if r == .ok then "ok" else "corrupted")
+     | _, _, _, _, _ => (d, "bad-op"))
+  | ["ci.greq", c, t] => (match c.toNat?, t.toInt? with | some cid, some ts => (d, CIndex.grEqPos d.cidx cid ts) | _, _ => (d, "bad-op"))
+  | ["ci.less", c, t] => (match c.toNat?, t.toInt? with | some cid, some ts => (d, CIndex.lessPos d.cidx cid ts) | _, _ => (d, "bad-op"))
+  | ["ci.info", c] => (match c.toNat? with | some cid => (d, CIndex.info d.cidx cid) | none => (d, "bad-op"))
+  | ["ci.points", c] => (match c.toNat? with | some cid => (d, CIndex.points d.cidx cid) | none => (d, "bad-op"))
+  | ["ci.upd", c, a, b] =>
+    (match c.toNat?, a.toInt?, b.toInt? with
+     | some cid, some rmin, some rmax =>
+       (match CIndex.findChk d.cidx cid with
+        | none => (d, "notfound")
+        | some ch =>
+          let (st, k) := Selector.updatePossWith rmin rmax ch.minTs ch.maxTs (CIndex.grEqAns d.cidx cid) (CIndex.lessAns d.cidx cid) {}
+          (d, s!"{st.minPos} {st.maxPos} {k}"))
+     | _, _, _ => (d, "bad-op"))
+  | ["rw.reset", m] => ({ d with wj := { maxSize := m.toNat?.getD 100 }, rcidx := {}, rcidx2 := {}, rcidx3 := {}, rebuiltNeg := false, rg := none, allTs := #[], batches := [], layout := none }, "ok")
+  | ["rw.write", spec] =>
+    let recs := parseRecs spec
+    let (j', ci', out, bad) := RangedIter.write d.wj d.rcidx recs
+    let (_, ci2, _, _) := RangedIter.writeWith WriteLoop.IW.repaired d.wj d.rcidx2 recs
+    let (_, ci3, _, _) := RangedIter.write d.wj d.rcidx3 recs
+    ({ d with wj := j', rcidx := ci', rcidx2 := ci2, rcidx3 := ci3, allTs := d.allTs ++ (recs.map (·.ts)).toArray, batches := (recs.map (·.ts)) :: d.batches, layout := none, pendingReb := bad },
+      WriteLoop.render out ++ (if bad.isEmpty then "" else " CORRUPTED " ++ ",".intercalate (bad.map toString)))
+  | "rw.rebuild" :: _ | "rw.autorebuild" :: _ =>
+    let (d, lay) := withLayout d
+    let auto := toks.head? == some "rw.autorebuild"
+    let c : String := (toks.drop 1).headD ""
+    let ids : List Nat := if auto then d.pendingReb else if c == "all" then d.wj.chunks.map (·.id) else (match c.toNat? with | some i => [i] | none => [])
+    let reb (ci : CIndex.St) : CIndex.St := ids.foldl (fun ci id =>
+        let i := (lay.1.findIdx? (·.id == id * 10)).getD 0
+        CIndex.rebuild ci id ((lay.2.1[i]?).getD #[]).toList) ci
+    let reb3 (ci : CIndex.St) : CIndex.St := ids.foldl (fun ci id =>
+        let i := (lay.1.findIdx? (·.id == id * 10)).getD 0
+        CIndex.rebuildRepaired ci id ((lay.2.1[i]?).getD #[]).toList) ci
+    let neg := ids.any (fun id => let i := (lay.1.findIdx? (·.id == id * 10)).getD 0; ((lay.2.1[i]?).getD #[]).any (· < 0))
+    ({ d with rcidx := reb d.rcidx, rcidx2 := reb d.rcidx2, rcidx3 := reb3 d.rcidx3, rebuiltNeg := d.rebuiltNeg || neg, pendingReb := if auto then [] else d.pendingReb }, "ok")
+  | ["rw.hull"] =>
+    (d, " ".intercalate (d.wj.chunks.map (fun c => match CIndex.findChk d.rcidx c.id with
+        | some ch => s!"{c.id}:{c.cnt}:{ch.minTs}:{ch.maxTs}"
+        | none => s!"{c.id}:{c.cnt}:?:?")))
+  | ["rw.points", c] => (match c.toNat? with | some cid => (d, CIndex.points d.rcidx cid) | none => (d, "bad-op"))
+  | ["r.windows", a, b] =>
+    (match optBound a, optBound b with
+     | some lo, some hi =>
+       let (d, lay) := withLayout d
+       let (mn, mx) := RangedIter.rangeOf lo hi
+       let st : RangedIter.St := { cks := lay.1, cidx := d.rcidx, tss := lay.2.1, rmin := mn, rmax := mx }
+       let st := RangedIter.rebuildStatuses st
+       (d, " ".intercalate (st.stats.map (fun (id, cs) => s!"{id / 10}:{cs.minPos}:{cs.maxPos}:{cs.count}")))
+     | _, _ => (d, "bad-op"))
+  | ["r.scan", a, b, pg] =>
+    (match optBound a, optBound b, pg.toNat? with
+     | some lo, some hi, some page =>
+       let (d, lay) := withLayout d
+       let (mn, mx) := RangedIter.rangeOf lo hi
+       let total := d.allTs.size
+       let got := doScan lay d.rcidx mn mx page total
+       let spec : Array Nat := (Array.range total).filter (fun i =>
+         let t := d.allTs[i]!
+         (match lo with | some l => decide (l ≤ t) | none => true) && (match hi with | some h => decide (t ≤ h) | none => true))
+       let cls : List String :=
+         (if RangedIter.classZeroSentinel d.batches then ["2"] else []) ++
+         (if RangedIter.classOpenLower lo d.allTs.toList then ["3"] else []) ++
+         (if d.rebuiltNeg then ["41"] else []) ++
+         (if RangedIter.classNonMonotone d.allTs.toList then
+            (if d.rcidx.chunks.any (fun c => match c.root with | some r => (d.rcidx.store[r]!).level > 0 | none => false) then ["4", "24"] else ["4"])
+          else [])
+       let clsS := if cls.isEmpty then "-" else ",".intercalate cls
+       if got == spec then (d, s!"got={runs got} spec={runs spec} cls={clsS} fix2=- fix3=- fix23=- fix41=-")
+       else
+         let lo3 : Int := lo.getD Points.minI64
+         let f2 := doScan lay d.rcidx2 mn mx page total == spec
+         let f3 := doScan lay d.rcidx lo3 mx page total == spec
+         let f23 := doScan lay d.rcidx2 lo3 mx page total == spec
+         let f41 := d.rebuiltNeg && doScan lay d.rcidx3 mn mx page total == spec
+         (d, s!"got={runs got} spec={runs spec} cls={clsS} fix2={b01 f2} fix3={b01 f3} fix23={b01 f23} fix41={b01 f41}")
+     | _, _, _ => (d, "bad-op"))
+  | ["r.new", a, b] =>
+    (match a.toInt?, b.toInt? with
+     | some mn, some mx => ({ d with rg := some { rmin := mn, rmax := mx } }, "ok")
+     | _, _ => (d, "bad-op"))
+  | ["r.get"] =>
+    (match d.rg with
+     | some st =>
+       let (d, st) := refresh d st
+       let (st', v) := RangedIter.itGet st
+       ({ d with rg := some st' }, (match v with | none => "eof" | some p => s!"{p.1}:{p.2}") ++ s!" pos={st'.cid}:{st'.idx}")
+     | none => (d, "bad-op"))
+  | ["r.next"] =>
+    (match d.rg with
+     | some st => let (d, st) := refresh d st; let st' := RangedIter.itNext st; ({ d with rg := some st' }, s!"pos={st'.cid}:{st'.idx}")
+     | none => (d, "bad-op"))
+  | ["r.setpos", a, b] =>
+    (match d.rg, a.toNat?, b.toNat? with
+     | some st, some cid, some idx => let (d, st) := refresh d st; let st' := RangedIter.setPos st cid idx; ({ d with rg := some st' }, s!"pos={st'.cid}:{st'.idx}")
+     | _, _, _ => (d, "bad-op"))
+  | ["r.bkwd", b] =>
+    (match d.rg with
+     | some st => ({ d with rg := some (RangedIter.setBackward st (b == "1")) }, "ok")
+     | none => (d, "bad-op"))
+  | _ => (d, "bad-op")
+
+def main (args : List String) : IO Unit := Driver.run step ({} : DS) args
